@@ -136,6 +136,9 @@ func (s *Share[FE]) UnmarshalCBOR(data []byte) error {
 	if err != nil {
 		return errs.Wrap(err).WithMessage("failed to unmarshal KW Share")
 	}
+	if dto == nil {
+		return errs.Wrap(serde.ErrNull).WithMessage("failed to unmarshal KW Share")
+	}
 	ss, err := NewShare(dto.ID, dto.V...)
 	if err != nil {
 		return errs.Wrap(err).WithMessage("invalid share data")
